@@ -24,7 +24,7 @@ T2: wire harness.  pgcat in-process, mock PostgreSQL backends that log every Can
     before the Client value is dropped while another client takes the server and the departing
     client's key is used for a cancel.
 """
-import json, os, random, re
+import copy, json, os, random, re
 import vlib
 from props import wirelib as WL
 
@@ -66,6 +66,9 @@ class Builder:
         self.reloads = []      # per reload: names of the backends whose existing sessions belong to a replaced pool
         self.spare = "bx"      # a backend no pool points to at the start (reload targets)
         self.uses_reload = False
+        self.keys = ""         # BackendKeyData scheme of the mock backends ("" | neg | zero | min | max)
+        self.real_signals = False
+        self.shutting = False
         self.unsynced = 0      # refused cancel requests whose pooler task is not waited for (see cancel(refused=True))
         self.admin = None
         self._rng = random.Random(len(label) * 7919 + psize)
@@ -84,17 +87,18 @@ class Builder:
             servers = [[b, "primary" if i == 0 else "replica"] for i, b in enumerate(d["servers"])]
             pools[p] = {"opts": {"pool_mode": self.mode, "prepared_statements_cache_size": 16 if self.mode == "transaction" else 0}, "users": [{"pool_size": self.psize}],
                         "shards": [{"database": "db_" + p, "servers": servers}]}
-        return WL.make_toml({"worker_threads": 4}, pools)
+        return WL.make_toml({"worker_threads": 4, "shutdown_timeout": 30000}, pools)
 
     def backends(self):
         return self._initial_backends + ([self.spare] if self.uses_reload else [])
 
     def scenario(self):
-        return {"backends": [{"name": b} for b in self.backends()], "toml": self._initial_toml, "workers": 4,
+        return {"backends": [dict({"name": b}, **({"keys": self.keys} if self.keys else {})) for b in self.backends()],
+                "toml": self._initial_toml, "workers": 4, "real_signals": self.real_signals,
                 "steps": self.steps + [{"op": "sleep", "ms": 40}, {"op": "snapshot", "label": "end"}]}
 
     def meta(self):
-        return {"mode": self.mode, "psize": self.psize, "two_pools": self.two, "label": self.label,
+        return {"mode": self.mode, "psize": self.psize, "two_pools": self.two, "label": self.label, "keys": self.keys, "shutdown": self.shutting,
                 "clients": list(self.order), "pool_of": {c: self.cl[c]["pool"] for c in self.order},
                 "accept": {c: self.cl[c]["accept"] for c in self.order}, "parked": dict(self.parked),
                 "backends": self.backends(), "reloads": list(self.reloads), "actions": list(self.actions)}
@@ -140,6 +144,11 @@ class Builder:
         if self.mode == "transaction" and st["holds"] and not st["in_txn"]:
             self.steps.append({"op": "wait_csm", "of": c, "present": False, "timeout_ms": 1000})
             self._release(c)
+            if self.shutting and st["alive"]:
+                # back in the outer loop the client is told to go ("terminating connection due to administrator command")
+                st["alive"] = False
+                self.ended += 1
+                self.steps.append({"op": "wait_tasks", "n": self.ended, "timeout_ms": 6000})
 
     # -- actions (each returns False if not applicable in the current bookkeeping state)
     def connect(self, c, pool):
@@ -317,6 +326,35 @@ class Builder:
             self.steps.append({"op": "wait_tasks", "n": self.ended, "timeout_ms": 6000})
         self._snap()
 
+    def shutdown(self, via="sig"):
+        """a graceful shutdown begins: SIGINT arm of main.rs (via the harness control) or SHUTDOWN on the admin
+        console (which sends SIGINT to the process: needs real_signals).  Clients that hold nothing are told to go,
+        transactions in progress may finish."""
+        self.actions.append(["shutdown", via])
+        if via == "admin":
+            self.real_signals = True
+            if self.admin is None:
+                self.admin = "adm"
+                self.steps.append({"op": "connect", "c": "adm", "params": {"user": "admin", "database": "pgcat"}, "password": "adminpw"})
+                self.accepted += 1
+            self.steps += [{"op": "send", "c": "adm", "msgs": [{"t": "Q", "sql": "SHUTDOWN"}]},
+                           {"op": "recv", "c": "adm", "until": "Z", "timeout_ms": 8000}]
+        else:
+            self.steps.append({"op": "control", "sig": "int"})
+        self.shutting = True
+        for c in self.order:
+            st = self.cl[c]
+            if st["alive"] and not st["holds"] and not st["waiting"]:
+                st["alive"] = False
+                self.ended += 1
+        # a new client must be turned away from now on (shows that the shutdown is really in progress)
+        self.steps.append({"op": "connect", "c": "probe", "params": {"user": "u", "database": "dba"}, "password": "pw", "timeout_ms": 3000})
+        self.accepted += 1
+        self.ended += 1
+        self.steps += [{"op": "wait_tasks", "n": self.ended, "timeout_ms": 6000},
+                       {"op": "mark_events", "ev": "control", "mark": "shutdown"}]
+        self._snap()
+
     def stall(self):
         """the pooler's main loop stops reading the client accounting (drain) channel and the channel is full:
         every client task that reaches a drain.send(..).await waits there — a CancelRequest's task between
@@ -460,6 +498,16 @@ def systematic(hook):
                         out.append(b)
     out += refusal_family()
     out += parked_family()
+    out += shutdown_family()
+    # K: the standard scenarios on backends whose BackendKeyData is unusual (a pooler in front of PostgreSQL hands
+    # out arbitrary i32 values): negative pid and secret, pid 0, i32::MIN / i32::MAX; equal across the two backends
+    base = {b.label: b for b in out}
+    for scheme in ("neg", "zero", "min", "max"):
+        for lab in ("tran/p1/1pool/own-key-timings", "sess/p2/2pools/hand-over", "tran/p1/1pool/reload-move-api", "tran/p2/2pools/hand-over"):
+            b = copy.deepcopy(base[lab])
+            b.keys = scheme
+            b.label = lab + "/keys-" + scheme
+            out.append(b)
     if hook:
         for mode in ("transaction", "session"):
             for psize in (1, 2):
@@ -529,6 +577,29 @@ def refusal_family():
     b.long("c0"); b.long("c1"); b.refuse("b0", True); b.cancel("c0", refused=True); b.cancel("c1")
     b.finish("c0"); b.long("c2"); b.refuse("b0", False); b.settle()
     b.cancel("c2"); b.cancel("c1"); b.cancel("c0"); b.drain()
+    out.append(b)
+    return out
+
+
+def shutdown_family():
+    """S: a graceful shutdown (SIGINT / admin SHUTDOWN) begins while statements run: the clients whose transactions
+    are allowed to finish must still be able to cancel them, exactly as without the shutdown."""
+    out = []
+    for via in ("sig", "admin"):
+        b = Builder("transaction", 2, 3, False, "tran/p2/shutdown-%s" % via)
+        b.long("c0"); b.begin("c1"); b.cancel("c0")
+        b.shutdown(via)                       # c2 holds nothing: it is told to go
+        b.cancel("c0"); b.cancel("c1"); b.cancel("c2"); b.cancel("c0")
+        b.finish("c0")                        # c0's transaction ends: released, then told to go
+        b.cancel("c0"); b.long("c1"); b.cancel("c1"); b.finish("c1"); b.cancel("c1")
+        out.append(b)
+        b = Builder("session", 1, 2, False, "sess/p1/shutdown-%s" % via)
+        b.long("c0"); b.shutdown(via); b.cancel("c0"); b.cancel("c1"); b.cancel("c0")
+        b.finish("c0"); b.cancel("c0"); b.long("c0"); b.cancel("c0"); b.finish("c0"); b.cancel("c0")
+        out.append(b)
+    b = Builder("transaction", 1, 4, True, "tran/p1/2pools/shutdown-sig")
+    b.long("c0"); b.long("c1"); b.shutdown("sig"); b.cancel("c0"); b.cancel("c1"); b.cancel("c2")
+    b.finish("c0"); b.cancel("c0"); b.cancel("c1")
     out.append(b)
     return out
 
@@ -645,6 +716,8 @@ def random_program(rng, idx, big):
     if two:
         n = max(n, 3)
     b = Builder(mode, psize, n, two, "random#%d" % idx)
+    if rng.random() < 0.3:
+        b.keys = rng.choice(["neg", "zero", "min", "max"])
     length = rng.randint(8, 14) if not big else rng.randint(12, 24)
     for _ in range(length):
         if not random_step(b, rng):
@@ -879,6 +952,10 @@ def analyse(meta, res):
                 del parked_reqs[:]
         elif kind == "refuse_new":
             refusing[e.get("b")] = bool(e.get("on"))
+        elif kind == "startup_done" and who == "probe" and e.get("auth_ok"):
+            problems.append("a new client was admitted after the shutdown began (the shutdown is not in progress)")
+        elif kind == "mark" and e.get("mark") == "shutdown":
+            ops.append("Shutdown")
         elif kind == "mark" and str(e.get("mark", "")).startswith("late:"):
             # settle time: whatever arrives from here on (until the next request) was sent long ago
             lo = last_refused_owner[0] or ("random", None)
@@ -1081,7 +1158,7 @@ def evaluate(wire, metas, scns, workers):
     results = WL.run_scenarios(wire, scns, workers=workers, timeout=120)
     analyses = [analyse(m, r) for m, r in zip(metas, results)]
     good = [i for i, a in enumerate(analyses) if not a.get("error") and not a["problems"]]
-    exprs = ["(cancel_drop_removes code_variant, exit_entry_first code_variant, reload_prunes code_variant, cancel_retries code_variant, lookup_at_accept code_variant)"] + [coq_expr(analyses[i]) for i in good]
+    exprs = ["(cancel_drop_removes code_variant, exit_entry_first code_variant, reload_prunes code_variant, cancel_retries code_variant, lookup_at_accept code_variant, shutdown_refuses_cancel code_variant, claim_needs_positive_pid code_variant)"] + [coq_expr(analyses[i]) for i in good]
     vals = vlib.coq_eval("c10eval", PREAMBLE, exprs, shard=24)
     flags = vlib.parse_coq(vals[0])
     models = {i: vlib.parse_coq(v) for i, v in zip(good, vals[1:])}
@@ -1134,6 +1211,13 @@ def run_batch(run, wire, builders, stats, samples, distinct):
         stats["contacts"] += sum(1 for o in a["obs"] if o != "Silent")
         stats["ops"] += len(a["ops"])
         stats["reload_ops"] += sum(1 for o in a["ops"] if o.startswith("Reload"))
+        if m.get("keys"):
+            stats["unusual_key_scenarios"] = stats.get("unusual_key_scenarios", 0) + 1
+            stats["unusual_key_contacts"] = stats.get("unusual_key_contacts", 0) + sum(1 for o in a["obs"] if o != "Silent")
+        if "Shutdown" in a["ops"]:
+            i0 = a["ops"].index("Shutdown")
+            stats["shutdown_scenarios"] = stats.get("shutdown_scenarios", 0) + 1
+            stats["contacts_after_shutdown_began"] = stats.get("contacts_after_shutdown_began", 0) + sum(1 for j, k in enumerate(a["cancels"]) if k["op_index"] > i0 and a["obs"][j] != "Silent")
         stats["reload_changed"] += sum(1 for o in a["ops"] if o.startswith("Reload") and o != "Reload []")
         stats["cancels_holder_of_retired"] += sum(1 for k in a["cancels"] if k.get("held_retired"))
         stats["traces"] += 1
@@ -1143,7 +1227,7 @@ def run_batch(run, wire, builders, stats, samples, distinct):
         for j, k in enumerate(a["cancels"]):
             # a distinct case = (mode, pool size, pools, the abstract situation of the key's owner, outcome, op context)
             ctx = tuple(a["ops"][max(0, k["op_index"] - 3):k["op_index"]])
-            distinct.add((m["mode"], m["psize"], m["two_pools"], k["owner"][0], k["held"] is not None, k["owner_exiting"],
+            distinct.add((m["mode"], m["psize"], m["two_pools"], m.get("keys"), k["owner"][0], k["held"] is not None, k["owner_exiting"],
                           k["prior_same_key_since_checkout"], k.get("held_retired"), k.get("late"), k.get("refused"), k.get("parked"), str(norm_outcome(a["obs"][j])) != "Silent", ctx))
             kind = ("late-window" if k.get("late") else "refused-connection" if k.get("refused") else "parked-before-handle" if k.get("parked") else "exit-window" if k["owner_exiting"] else "holder" if k["held"] is not None else k["owner"][0] if k["owner"][0] != "client" else "not-holding")
             stats["timing_classes"][kind] = stats["timing_classes"].get(kind, 0) + 1
@@ -1210,7 +1294,7 @@ def check(run):
     run.cov["traces_validated_against_impl"] = stats["traces"]
     run.cov["rule"] = ("systematic families (mode transaction|session x pool_size 1|2 x one pool | two pools on two backends with identical session (pid,key)): "
                        "own-key timings (before any statement, during a gated statement, twice during it, idle in transaction, between transactions, after COMMIT, after X, right pid + wrong secret, random key, other client's key), "
-                       "hand-over of a server between two clients incl. cancel while waiting for the pool, error exits (socket closed | frame with length 3 | Close that panics its decoder | Bind of an unknown statement with the statement cache on; in a transaction | idle) followed by reuse of the server; configuration reloads (write_config + reload_config | admin RELOAD; pool moved to another backend | server added/removed | unchanged; one pool of two changed) while statements run, cancels before and after, next checkout on the new pool; refused cancel connections (the backend's listener refuses new connections while established sessions keep working; the requester's statement ends, another client takes the session, the listener returns, 1.6 s of settle time whose late arrivals are judged at arrival time); requests parked between accept and handle() (the drain channel is stalled and full: client_entrypoint waits in drain.send(1).await) while the session changes hands / is re-dealt / the requester keeps or only then gets a session; "
+                       "hand-over of a server between two clients incl. cancel while waiting for the pool, error exits (socket closed | frame with length 3 | Close that panics its decoder | Bind of an unknown statement with the statement cache on; in a transaction | idle) followed by reuse of the server; configuration reloads (write_config + reload_config | admin RELOAD; pool moved to another backend | server added/removed | unchanged; one pool of two changed) while statements run, cancels before and after, next checkout on the new pool; refused cancel connections (the backend's listener refuses new connections while established sessions keep working; the requester's statement ends, another client takes the session, the listener returns, 1.6 s of settle time whose late arrivals are judged at arrival time); requests parked between accept and handle() (the drain channel is stalled and full: client_entrypoint waits in drain.send(1).await) while the session changes hands / is re-dealt / the requester keeps or only then gets a session; graceful shutdown (control SIGINT | admin SHUTDOWN) while gated statements run, cancels by the clients whose transactions may finish; the standard scenarios on backends announcing negative / zero / i32::MIN / i32::MAX BackendKeyData (equal across two backends); "
                        "%s; plus %d seeded random client programs (8-14 actions, 2-3 clients; thorough: 12-24 actions, 2-4 clients) with a cancel at ~42%% of the positions and %d random programs with one exit held open at the schedule point. "
                        "evaluations = cancel requests judged three ways (backend packets, trace monitor, Coq model); distinct = distinct (mode, pool size, pools, owner situation, outcome, 3-op context) tuples"
                        % ("exit-window schedules held open with the schedule point %s (task parked between handle() and the drop of Client, another client takes the server, cancels with the departing key before/after)" % HOOK_POINT if hook else "NO schedule point in /repo: exit-window schedules skipped", nrand, nwin))
@@ -1219,9 +1303,11 @@ def check(run):
                                      "map_size_snapshots_compared": stats["snapshots"], "by_owner_situation": stats["timing_classes"],
                                      "reloads": stats["reload_ops"], "reloads_that_replaced_a_pool": stats["reload_changed"],
                                      "cancels_by_a_holder_of_a_replaced_pools_session": stats["cancels_holder_of_retired"],
+                                     "scenarios_on_backends_with_unusual_keys": stats.get("unusual_key_scenarios", 0), "contacts_there": stats.get("unusual_key_contacts", 0),
+                                     "shutdown_scenarios": stats.get("shutdown_scenarios", 0), "contacts_after_shutdown_began": stats.get("contacts_after_shutdown_began", 0),
                                      "exit_window_scenarios": stats["window_scenarios"], "cancels_inside_exit_window": stats["window_cancels"],
-                                     "hook_point_present": hook, "scenarios_rerun_after_a_problem": stats["reruns"], "problems_not_reproduced_on_rerun": stats["flaky"][:10], "code_variant": {"cancel_drop_removes": flags[0], "exit_entry_first": flags[1], "reload_prunes": flags[2], "cancel_retries": flags[3], "lookup_at_accept": flags[4]} if flags else None}
-    run.cov["transitions"] = "model ops exercised: Checkout, ReleaseNormal, Terminate, ExitDropGuard(clean|unclean), ExitDropClient, Cancel, CancelRefused, DeliverLate, CancelAccept, CancelAct, CancelDrop, Reload (SrvClose is never forced by these scenarios)"
+                                     "hook_point_present": hook, "scenarios_rerun_after_a_problem": stats["reruns"], "problems_not_reproduced_on_rerun": stats["flaky"][:10], "code_variant": {"cancel_drop_removes": flags[0], "exit_entry_first": flags[1], "reload_prunes": flags[2], "cancel_retries": flags[3], "lookup_at_accept": flags[4], "shutdown_refuses_cancel": flags[5], "claim_needs_positive_pid": flags[6]} if flags else None}
+    run.cov["transitions"] = "model ops exercised: Checkout, ReleaseNormal, Terminate, ExitDropGuard(clean|unclean), ExitDropClient, Cancel, CancelRefused, DeliverLate, CancelAccept, CancelAct, CancelDrop, Reload, Shutdown (SrvClose is never forced by these scenarios)"
     if not proof_ok and not run.violations and not run.broken:
         run.violation("proof-broken", "coq/Cancel/Props.v no longer checks; the wire correspondence found no failing input", {"theorem": "Cancel/Props.v", "coq_log": log[-2500:]}, found_input=False)
     if not quick and proof_ok:
@@ -1240,7 +1326,7 @@ def replay(run, path):
     if a.get("error"):
         print("replay: scenario did not run:", a["error"])
         return 2
-    vals = vlib.coq_eval("c10replay", PREAMBLE, ["(cancel_drop_removes code_variant, exit_entry_first code_variant, reload_prunes code_variant, cancel_retries code_variant, lookup_at_accept code_variant)", coq_expr(a)])
+    vals = vlib.coq_eval("c10replay", PREAMBLE, ["(cancel_drop_removes code_variant, exit_entry_first code_variant, reload_prunes code_variant, cancel_retries code_variant, lookup_at_accept code_variant, shutdown_refuses_cancel code_variant, claim_needs_positive_pid code_variant)", coq_expr(a)])
     model = vlib.parse_coq(vals[1])
     print("ops  :", a["ops"])
     print("impl :", [str(o) for o in a["obs"]])
